@@ -836,8 +836,13 @@ def main():
         "refuted_theorems": [t for t in props["theorems"] if t.endswith("_refuted")],
         "regenerated_from_source": ["tzrangebase._dst_base_offset/_naive_isdst/is_ambiguous/_isdst/utcoffset/dst/"
                                     "tzname/fromutc", "tzrange.__init__/transitions", "tzstr.__init__/_delta",
-                                    "tzlocal._naive_is_dst/is_ambiguous/_isdst/utcoffset/dst/tzname"],
-        "differential_only": ["_tzparser.parse (hand model; not regenerated)",
+                                    "tzlocal._naive_is_dst/is_ambiguous/_isdst/utcoffset/dst/tzname",
+                                    "_tzparser.parse slices: abbreviation span (character class + loop), offset "
+                                    "after an abbreviation, rule time after '/', one pass of the POSIX rule loop "
+                                    "(Jn | Mm.w.d | n)[/time], one pass of the deprecated comma-format rule loop"],
+        "differential_only": ["_tzparser.parse outside the regenerated slices (tokeniser, outer abbreviation loop, "
+                              "rule-count dispatch and its character filters, trailing daylight delta of the "
+                              "deprecated format, unused-token check: hand model)",
                               "tzlocal against real glibc (C library trusted)", "tzrange keyword styles",
                               "deprecated comma format of _tzparser", "non-ASCII input"],
         "known_findings_hit": verdict.known_hits,
